@@ -86,13 +86,13 @@ def r1_element_table(ctx):
             raise AnalysisError("cannot fold periodic.%s" % nm)
         want = tuple((fn(r[col]) if fn else r[col]) for r in el)
         ctx.check(tuple(env[nm]) == want, PERIODIC + ":" + nm, "derived-column",
-                  "%s is not column %d of _elements%s" % (nm, col, " lower-cased" if fn else ""), node=m.assign(nm))
+                  "%s is not column %d of _elements%s" % (nm, col, " lower-cased" if fn else ""), node=_assign_node(m, nm))
     # relative_atomic_masses: float() of column 2, brackets stripped for '[A]' entries.  The constant is folded (the table-building generator is
     # evaluated on the literal table: constant propagation of a module-level constant); only when that is out of the folder's reach is the
     # spelling of the generator examined instead
     gen = ctx.func(PERIODIC, "_get_relative_atomic_masses")
     a = PERIODIC + ":_get_relative_atomic_masses"
-    ram = m.assign("relative_atomic_masses")
+    ram = _assign_node(m, "relative_atomic_masses")
     folded = env.get("relative_atomic_masses")
     if isinstance(folded, (tuple, list)):
         want = []
@@ -142,6 +142,14 @@ def r1_element_table(ctx):
                 ok = False
     ctx.check(ok, a, "float-of-entry", "each mass must be float(entry) with brackets stripped for '[A]' entries; found %s" % (
         [U(y.value) for y in ys]), node=ys[0] if ys else gen)
+
+
+def _assign_node(m, name):
+    """the module-level assignment of `name`, for the report's position only (None when the name is bound some other way, e.g. by unpacking)"""
+    try:
+        return m.assign(name)
+    except AnalysisError:
+        return None
 
 
 def r2_offsets(ctx):
